@@ -35,11 +35,12 @@ func c10script(i byte) []byte {
 // The full chain (heights 0..6); executions start with a prefix of it and
 // grow it block by block.
 //
-//	height 1: tx A creates A:0 (script 1) and A:1 (script 2)
+//	height 1: tx A creates A:0 (script 1), A:1 (script 2) and A:2 (script 1
+//	          again: two outputs paying the same address)
 //	height 2: tx B creates B:0 (script 3); tx C spends B:0 in the same block
 //	height 3: tx S spends A:0 with its input 1 (input 0 spends something else)
 //	height 4: nothing relevant
-//	height 5: tx U spends A:1
+//	height 5: tx U spends A:1; tx V spends A:2
 //	height 6: nothing relevant
 func c10Build() (*c10chain, map[string]wire.OutPoint) {
 	mk := func(salt byte, ins []wire.OutPoint, outs ...[]byte) *wire.MsgTx {
@@ -59,11 +60,12 @@ func c10Build() (*c10chain, map[string]wire.OutPoint) {
 		return wire.OutPoint{Hash: h, Index: 0}
 	}
 	cb := func(h byte) *wire.MsgTx { return mk(h, []wire.OutPoint{{Index: 0xffffffff}}, c10script(100+h)) }
-	A := mk(1, []wire.OutPoint{rnd(1)}, c10script(1), c10script(2))
+	A := mk(1, []wire.OutPoint{rnd(1)}, c10script(1), c10script(2), c10script(1))
 	B := mk(2, []wire.OutPoint{rnd(2)}, c10script(3))
 	C := mk(3, []wire.OutPoint{{Hash: B.TxHash(), Index: 0}}, c10script(4))
 	S := mk(4, []wire.OutPoint{rnd(3), {Hash: A.TxHash(), Index: 0}}, c10script(5))
 	U := mk(5, []wire.OutPoint{{Hash: A.TxHash(), Index: 1}}, c10script(6))
+	V := mk(6, []wire.OutPoint{{Hash: A.TxHash(), Index: 2}}, c10script(7))
 	ch := &c10chain{}
 	var prev chainhash.Hash
 	for h := byte(0); h <= 6; h++ {
@@ -77,13 +79,14 @@ func c10Build() (*c10chain, map[string]wire.OutPoint) {
 		case 3:
 			blk.Transactions = append(blk.Transactions, S)
 		case 5:
-			blk.Transactions = append(blk.Transactions, U)
+			blk.Transactions = append(blk.Transactions, U, V)
 		}
 		ch.blocks = append(ch.blocks, blk)
 		prev = blk.BlockHash()
 	}
 	ops := map[string]wire.OutPoint{
 		"A:0": {Hash: A.TxHash(), Index: 0}, "A:1": {Hash: A.TxHash(), Index: 1},
+		"A:2": {Hash: A.TxHash(), Index: 2},
 		"A:7": {Hash: A.TxHash(), Index: 7}, "B:0": {Hash: B.TxHash(), Index: 0},
 		"none": rnd(9),
 	}
@@ -103,6 +106,7 @@ var c10pool = []c10req{
 	{"A:0@0", "A:0", 1, 0},   // start before creation
 	{"A:0@4", "A:0", 1, 4},   // start after the spend
 	{"A:1@1", "A:1", 2, 1},   // second output of the same tx, spent only at 5
+	{"A:2@1", "A:2", 1, 1},   // third output, same script as A:0, spent only at 5
 	{"A:7@1", "A:7", 9, 1},   // out-of-range index
 	{"B:0@2", "B:0", 3, 2},   // created and spent in one block
 	{"none@1", "none", 8, 1}, // never created
@@ -175,7 +179,7 @@ func c10Run(c *verifeng.Chooser, depth, nreq int) {
 	failNextBlock := false
 	batchFailed := map[*GetUtxoRequest]bool{}
 	_ = batchFailed
-	var fetchErrs int
+	var fetchErrs, hashErrs int
 
 	scanner := NewUtxoScanner(&UtxoScannerConfig{
 		BestSnapshot: func() (*headerfs.BlockStamp, error) {
@@ -280,6 +284,9 @@ func c10Run(c *verifeng.Chooser, depth, nreq int) {
 				if fetchErrs > 0 && strings.Contains(l.tk.Err.Error(), "block fetch failed") {
 					continue
 				}
+				if hashErrs > 0 && strings.Contains(l.tk.Err.Error(), "block hash lookup failed") {
+					continue
+				}
 				return c.Fail("C10", "C10:unexpected-error", "request %s failed with %v although no callback failed, it was not cancelled and the client was not stopped", l.r.name, l.tk.Err)
 			}
 			want := c10Expected(full, ops, l.r, tip)
@@ -305,7 +312,7 @@ func c10Run(c *verifeng.Chooser, depth, nreq int) {
 			n := 0
 			for i, r := range c10pool {
 				i, r := i, r
-				if used[i] || len(lives) >= nreq || n >= 8 {
+				if used[i] || len(lives) >= nreq {
 					continue
 				}
 				n++
@@ -332,6 +339,11 @@ func c10Run(c *verifeng.Chooser, depth, nreq int) {
 		if gate != nil {
 			g := gate
 			menu = append(menu, ev{fmt.Sprintf("scan proceeds at height %d", g.height), func() { gate = nil; g.release <- nil }})
+			menu = append(menu, ev{fmt.Sprintf("scan at height %d: the block hash lookup fails", g.height), func() {
+				gate = nil
+				hashErrs++
+				g.release <- errors.New("block hash lookup failed")
+			}})
 			menu = append(menu, ev{fmt.Sprintf("scan proceeds at height %d, fetching its block fails", g.height), func() {
 				gate = nil
 				failNextBlock = true
